@@ -75,6 +75,29 @@ def st_case(draw):
 
 
 @st.composite
+def st_wide_case(draw):
+    """Many readers of different speeds on a deep buffer: 3-4 subscribers, 4-8 messages sent in order, capacity 4-6
+    (or lazy mode) - the region where the clean-up of fully read messages removes a prefix of the buffer while a
+    middle reader's next message is still inside it."""
+    n = draw(st.integers(4, 8))
+    lazy = draw(st.integers(0, 3)) == 0
+    nsub = draw(st.integers(3, 4))
+    drive = [draw(st.booleans()) for _ in range(nsub)]
+    if lazy and not any(drive):
+        drive[draw(st.integers(0, nsub - 1))] = True
+    futures = draw(st.integers(0, 3)) == 0
+    cfg = dict(n=n, cap=draw(st.integers(4, 6)), lazy=lazy, drive=drive, sender="iter", perm=list(range(n)),
+               futures=futures, fut_order=list(draw(st.permutations(list(range(n))))) if futures else [],
+               nworkers=draw(st.integers(1, 2)) if futures else 0, lazy_cap=draw(st.booleans()))
+    # half of the schedules keep one reader (or the sender) back while anything else can run: readers then sit at
+    # very different positions of the buffer
+    pol = draw(st.one_of(policies.st_policy(), st.builds(
+        lambda v, sd: dict(kind="starve", victim=v, inner=dict(kind="random", seed=sd, p_stay=0.5)),
+        st.sampled_from(["read_0", "read_1", "read_2", "send"]), st.integers(0, 10 ** 6))))
+    return dict(cfg=cfg, policy=pol)
+
+
+@st.composite
 def st_explicit_case(draw):
     """Explicitly numbered messages in a genuinely permuted order whose displacement stays just below the
     capacity (constructed by delaying single messages, never repaired towards the identity)."""
@@ -386,6 +409,7 @@ def run_dfs(d):
 SUBCHECKS = [
     SubCheck("random", run_case, strategy=st_case, quick=2500, thorough=120000),
     SubCheck("explicit", run_case, strategy=st_explicit_case, quick=1200, thorough=60000),
+    SubCheck("wide", run_case, strategy=st_wide_case, quick=5000, thorough=120000),
     SubCheck("divide", run_divide, strategy=st_divide_case, quick=1000, thorough=40000),
     SubCheck("dfs", run_dfs, enumerate=enum_dfs),
 ]
